@@ -3,7 +3,7 @@
    Parts 2 and 3 (reflection over the tables and database cases of the working tree): Properties_C12_X86.v, Properties_C12_A64.v.
    Statements only; proofs are in coq/theories/RwInfo/*Proofs.v. *)
 From Coq Require Import NArith ZArith List Bool.
-From Verif Require Import RwInfo.RwModel RwInfo.FeatModel RwInfo.RwSpec RwInfo.RwProofs RwInfo.RegWrite RwInfo.RegWriteProofs RwInfo.A64RwModel RwInfo.A64RwProofs RwInfo.FeatProofs RwInfo.BridgeC05 RegAlloc.RwRuleModel RegAlloc.RwRuleProofs.
+From Verif Require Import RwInfo.RwModel RwInfo.FeatModel RwInfo.RwSpec RwInfo.RwProofs RwInfo.RegWrite RwInfo.RegWriteProofs RwInfo.A64RwModel RwInfo.A64RwProofs RwInfo.FeatProofs RwInfo.BridgeC05 RwInfo.FrameProofs RegAlloc.RwRuleModel RegAlloc.RwRuleProofs.
 Import ListNotations.
 Local Open Scope N_scope.
 
@@ -101,7 +101,7 @@ Proof. exact generic_op_gp_masks. Qed.
 Print Assumptions C12_generic_path_gp_masks.
 
 Theorem C12_generic_path_vec_masks : forall T native row i rt id,
-  In rt [11; 12; 13] ->
+  In rt [11; 12; 13] -> group_byte_mask T grp_vec = ones64 ->
   let dsc := nthN (t_op T) (nth i (rr_ops row) 0) d_op in
   test (clear (or_flags dsc) fZExt) fW = true -> or_w dsc = 0 -> test (or_flags dsc) fZExt = true ->
   let o := generic_op T native row i (OReg rt id) in
@@ -159,3 +159,108 @@ Theorem C12_select_row_explicit : forall T ii nops,
   (entry_count sel = nops \/ (1 < rr_cat sel)%N) -> select_row T ii nops = (sel, seq 0 6).
 Proof. intros T ii nops sel [H | H]; [exact (select_row_explicit T ii nops H) | exact (select_row_special T ii nops H)]. Qed.
 Print Assumptions C12_select_row_explicit.
+
+(* ---------------------------------------------------------------- what must NOT change (all tables, records, operands) *)
+(* Immediates, labels and empty operands are never described as read or written. *)
+Theorem C12_non_register_operands_silent : forall T native row i src,
+  is_reg_or_mem src = false -> generic_op T native row i src = op_zero.
+Proof. exact generic_op_non_regmem. Qed.
+Print Assumptions C12_non_register_operands_silent.
+Example C12_non_register_operands_silent_nonvacuous : is_reg_or_mem (OImm 5) = false /\ is_reg_or_mem OLabel = false.
+Proof. split; reflexivity. Qed.
+
+(* Zero extension is only ever reported for WRITTEN operands: an operand whose record has no write flag gets neither an extend mask nor kZExt;
+   a memory operand never gets an extend mask. *)
+Theorem C12_no_extension_without_write : forall T native row i src,
+  let dsc := nthN (t_op T) (nth i (rr_ops row) 0) d_op in
+  test (clear (or_flags dsc) fZExt) fW = false ->
+  o_e (generic_op T native row i src) = 0 /\ test (o_flags (generic_op T native row i src)) fZExt = false.
+Proof. exact generic_op_unwritten_no_extend. Qed.
+Print Assumptions C12_no_extension_without_write.
+
+Theorem C12_memory_operands_never_extended : forall T native row i sz b x, o_e (generic_op T native row i (OMem sz b x)) = 0.
+Proof. exact generic_op_mem_no_extend. Qed.
+Print Assumptions C12_memory_operands_never_extended.
+
+(* rw_zero_extend_gp only touches the extend mask and the kZExt flag. *)
+Theorem C12_zext_gp_frame : forall o regsize native,
+  let o' := zext_gp o regsize native in
+  o_w o' = o_w o /\ o_r o' = o_r o /\ o_phys o' = o_phys o /\ o_rmsize o' = o_rmsize o /\ o_clc o' = o_clc o /\
+  (o_flags o' = o_flags o \/ o_flags o' = N.lor (o_flags o) fZExt).
+Proof. exact zext_gp_frame. Qed.
+Print Assumptions C12_zext_gp_frame.
+
+(* rw_handle_avx512: nothing changes without a {k} mask; with one, only the extra register and the READ side (flags, read mask) of operand 0 -
+   instruction flags, rm_feature, CPU flags, the other operands and operand 0's write/extend masks, fixed id, rm size and lead count stay. *)
+Theorem C12_handle_avx512_frame : forall q av out,
+  (q_extra_mask q = false -> handle_avx512 q av out = out) /\
+  (let out' := handle_avx512 q av out in
+   i_flags out' = i_flags out /\ i_rmfeat out' = i_rmfeat out /\ i_rf out' = i_rf out /\ i_wf out' = i_wf out /\
+   length (i_ops out') = length (i_ops out) /\ tl (i_ops out') = tl (i_ops out) /\
+   match i_ops out', i_ops out with
+   | o' :: _, o :: _ => o_w o' = o_w o /\ o_e o' = o_e o /\ o_phys o' = o_phys o /\ o_rmsize o' = o_rmsize o /\ o_clc o' = o_clc o
+   | [], [] => True
+   | _, _ => False
+   end).
+Proof. intros q av out. split; [apply handle_avx512_no_mask | apply handle_avx512_frame]. Qed.
+Print Assumptions C12_handle_avx512_frame.
+
+(* non-vacuity of the hypotheses of the C05 bridge *)
+Example C12_C05_bridge_nonvacuous : bytes_ok [1; 2; 3; 4; 5; 6; 7; 255] /\ D32 <> D8hi /\ (3 < 8)%nat.
+Proof. split; [repeat constructor | split; [discriminate | repeat constructor]]. Qed.
+
+(* kCategoryMov, register <- register: for every pair of general-purpose register sizes and both modes the destination's masks are exactly
+   reported_gp (the masks of C12_gp_bytes_exact), the destination is not read, the source is not written and has no extend mask, kMovOp is set. *)
+Theorem C12_mov_gp_gp : forall mode64 (d d' : gp_dest) id1 id2 opt k out,
+  let q := {| q_arch64 := mode64; q_id := 0; q_options := opt; q_extra_mask := k;
+              q_ops := [OReg (gp_regtype d) id1; OReg (gp_regtype d') id2] |} in
+  exists o0 o1, option_map i_ops (cat_mov q out) = Some [o0; o1] /\
+    o_w o0 = o_w (reported_gp mode64 d (dest_size d)) /\ o_e o0 = o_e (reported_gp mode64 d (dest_size d)) /\
+    test (o_flags o0) fR = false /\ test (o_flags o1) fW = false /\ o_e o1 = 0 /\ o_w o1 = 0 /\
+    option_map (fun r => test (i_flags r) kMovOp) (cat_mov q out) = Some true.
+Proof. exact cat_mov_gp_gp. Qed.
+Print Assumptions C12_mov_gp_gp.
+
+(* AArch64, what must not change: an instruction without the consecutive flag (or with at most two operands) that is not tbl/tbx never reports
+   a register run - no lead count, no kConsecutive - for all tables whose access records only use kRead/kWrite. *)
+Theorem C12_a64_no_run_without_flag : forall T id ops out,
+  a64_query_rw_info T id ops = Some out ->
+  let real := N.land id (at_real_id_mask T) in
+  let row := nthN (at_inst T) real {| ai_rw := 0; ai_flags := 0 |} in
+  (test (ai_flags row) (at_consecutive T) && Nat.ltb 2 (length ops)) = false ->
+  existsb (N.eqb real) (at_tbl_ids T) = false ->
+  (forall e, In e (nthN (at_rwx T) (ai_rw row) []) -> e <= 3) ->
+  Forall no_run (i_ops out).
+Proof. exact a64_no_run_reported. Qed.
+Print Assumptions C12_a64_no_run_without_flag.
+
+(* query_features commits to ONE encoding family, for every table, instruction and operand tuple: the reported set never names an AVX-class
+   extension (AVX, AVX2, FMA, F16C, AVX_VNNI, AVX_IFMA, AVX_NE_CONVERT) together with an AVX-512 one (BF16, BW, DQ, F, IFMA, VNNI). *)
+Theorem C12_features_one_encoding_family : forall T C q rep,
+  query_features T C q = Some rep -> has_any rep (avx_class C) && has_any rep (avx512_class C) = false.
+Proof. exact query_features_one_family. Qed.
+Print Assumptions C12_features_one_encoding_family.
+
+(* AArch64 consecutive path, UNBOUNDED (all tables, ids, operand lists; complements the reflection theorem C12_a64_consecutive_runs over the
+   database's list forms): for a flagged instruction with more than two operands, a register at position 0 leads a run of (operand count - 1)
+   registers and every later register operand is flagged kConsecutive. *)
+Theorem C12_a64_flagged_run_reported : forall T id ops out,
+  a64_query_rw_info T id ops = Some out ->
+  let real := N.land id (at_real_id_mask T) in
+  let row := nthN (at_inst T) real {| ai_rw := 0; ai_flags := 0 |} in
+  test (ai_flags row) (at_consecutive T) = true -> (2 < length ops)%nat ->
+  (forall e, nth 0 ops ANone = AReg e -> o_clc (nth 0 (i_ops out) op_zero) = u8 (N.of_nat (length ops - 1))) /\
+  (forall i e, (0 < i < length ops)%nat -> nth i ops ANone = AReg e -> test (o_flags (nth i (i_ops out) op_zero)) fConsecutive = true).
+Proof. exact a64_flagged_run_reported. Qed.
+Print Assumptions C12_a64_flagged_run_reported.
+
+(* Legacy SSE (not VEX/EVEX/XOP) instructions keep the bits above the destination register: for ALL tables and records the generic path of a
+   legacy instruction never reports a zero-extended byte above the size of a vector destination register (with
+   fixes/C12-legacy-sse-keeps-upper-bits.patch; the pinned code reported bytes 16..63 - seen on the host CPU as "extension reported but kept"). *)
+Theorem C12_legacy_sse_keeps_upper_bits : forall T native row i rt id,
+  reg_group rt = grp_vec ->
+  N.land (o_e (generic_op_v T false native row i (OReg rt id))) (not64 (lsb_mask (N.min (reg_size rt) 64))) = 0.
+Proof. exact legacy_vec_no_extension_beyond_register. Qed.
+Print Assumptions C12_legacy_sse_keeps_upper_bits.
+Example C12_legacy_sse_keeps_upper_bits_nonvacuous : reg_group 11 = grp_vec /\ not64 (lsb_mask (N.min (reg_size 11) 64)) <> 0.
+Proof. split; [reflexivity | discriminate]. Qed.
